@@ -177,6 +177,34 @@ def search(ctx):
                     break
             if out:
                 break
+    # several streams through ONE encoder (one shared 3-bit counter) into ONE decoder: a stream then sees the same
+    # counter value twice in a row (A, 7 x B, A; round robin over 8 streams) — every message must still come back
+    if not out:
+        keys = [(126720, 1, 2), (130816, 1, 255), (126720, 1, 3), (130816, 3, 255), (126720, 9, 2), (130816, 9, 255),
+                (126720, 9, 255), (130816, 77, 255)]
+        pats = [[0] + [1] * 7 + [0], [0] + [1] * 15 + [0] + [1] * 7 + [0], list(range(8)) * 3]
+        for _ in range(ctx.n(6, 60)):
+            pats.append([rng.randrange(rng.choice([2, 3, 8])) for _ in range(rng.randint(9, 40))])
+        for pat in pats:
+            e, d = NMEA2000Encoder(), NMEA2000Decoder()
+            e.sequence_counter = rng.randrange(8)
+            hist = []
+            for j, ki in enumerate(pat):
+                key = keys[ki]
+                p = c04.fallback_payload(rng, key[0], rng.choice([0, 3, 6, 7, 8, 13, 14, 20, 50]), P)
+                fr = e._encode_fast_message(key[0], 3, key[1], key[2], bytes(p))
+                got = [c04.observe(d, c04.packet(key, f)) for f in fr]
+                hist.append([list(key), bytes(p).hex()])
+                okm = all(o[0] == "none" for o in got[:-1]) and got[-1][0] == "msg" and \
+                    got[-1][1] == int.from_bytes(bytes(p), "little")
+                if not okm:
+                    out.append({"key": "sequence:multi-stream:message-lost-or-wrong", "kind": "mseq",
+                                "what": f"message {j} (stream {key}) of a run of {len(pat)} messages over several streams through one "
+                                        f"encoder/decoder was answered {[list(o)[:2] for o in got]}",
+                                "counter0": None, "messages": hist})
+                    break
+            if out:
+                break
     # public path for encodable fast definitions: frames of encode_ebyte fed to decode_tcp give the message that
     # direct decoding of the encoder's payload gives
     if not out and ctx.thorough:
@@ -242,6 +270,24 @@ def replay(ctx, data):
         return v is not None
     if w.get("kind") == "history":
         return c04.replay(ctx, data)
+    if w.get("kind") == "mseq":
+        from nmea2000.decoder import NMEA2000Decoder
+        from nmea2000.encoder import NMEA2000Encoder
+        bad = None
+        for c0 in range(8):
+            e, d = NMEA2000Encoder(), NMEA2000Decoder()
+            e.sequence_counter = c0
+            for j, (key, hx) in enumerate(w["messages"]):
+                key, p = tuple(key), bytes.fromhex(hx)
+                fr = e._encode_fast_message(key[0], 3, key[1], key[2], p)
+                got = [c04.observe(d, c04.packet(key, f)) for f in fr]
+                if not (all(o[0] == "none" for o in got[:-1]) and got[-1][0] == "msg" and got[-1][1] == int.from_bytes(p, "little")):
+                    bad = (c0, j, [list(o)[:2] for o in got])
+                    break
+            if bad:
+                break
+        print("observed:", f"initial counter {bad[0]}: message {bad[1]} answered {bad[2]}" if bad else "property holds on this input")
+        return bad is not None
     r = search(ctx)
     print("observed:", r[0]["what"] if r else "property holds")
     return bool(r)
